@@ -42,6 +42,8 @@ func init() {
 			return map[string]int64{"value:O": 20, "parity:even": 100, "parity:odd": 100, "repr:scaled": 200, "repr:id-y": 10, "x-leading-zero": 10, "via:ops": 8, "history-cases": 400, "move:negate": 10, "move:sub": 10, "move:mul-1": 10}
 		},
 	})
+
+	Registry["C04"].ColdStart = func(c *mon.Ctx) { c04RunConc(c, c.Seed*7919+uint64(c.Shard)+1) }
 }
 
 func c04Generate(c *mon.Ctx) {
@@ -96,6 +98,9 @@ func c04Generate(c *mon.Ctx) {
 
 		return &c04Case{E: mon.MkElemCase(pv, gen.DrawRepr(r, pv.P.IsInf()))}
 	})
+
+	// and again at the end of the shard, when the process has a history behind it
+	concBatches(c, c.N(4, 200), func(seed uint64) any { return &c04Case{Conc: seed + 50000} })
 }
 
 func c04Run(c *mon.Ctx, csAny any) {
@@ -279,6 +284,23 @@ func c04Run(c *mon.Ctx, csAny any) {
 		if d.Equal(e) != 1 {
 			c.Fail(fmt.Sprintf("%s result is not Equal to the source", t.name), "roundtrip-equal:"+t.name, nil)
 		}
+	}
+
+	// the caller owns what the encoders returned: overwriting it must not change any later encoding, of this element or
+	// of any other element with the same value
+	for _, b := range [][]byte{enc, encU, xc, mb} {
+		full := b[:cap(b)]
+		for i := range full {
+			full[i] ^= 0xa5
+		}
+	}
+
+	c.Eval(2)
+
+	if again := e.Encode(); !bytes.Equal(again, wantC) {
+		c.Fail(fmt.Sprintf("after the caller overwrote earlier results, Encode=%s want %s", mon.H(again), mon.H(wantC)), "encode-after-scribble", nil)
+	} else if other := mon.ElemAffine(p).EncodeUncompressed(); !bytes.Equal(other, wantU) {
+		c.Fail(fmt.Sprintf("after the caller overwrote earlier results, another element with the same value encodes as %s want %s", mon.H(other), mon.H(wantU)), "encode-after-scribble", nil)
 	}
 
 	if !(cs.E.P.Inf && cs.E.R.Kind == "id-canonical" && cs.Via == "") {
